@@ -80,6 +80,8 @@ def shards(tier):
     for name, nmax in wk:
         for N in range(1, nmax + 1):
             out.append(('wk', name, N))
+    for N in ([8, 9] if tier == 'quick' else [8, 9, 16, 33]):
+        out.append(('pcm', N))
     return out
 
 
@@ -133,6 +135,16 @@ def run_shard(desc, R, tier):
                             continue
                         X = np.stack([cc[i] for i in tup], axis=1)
                         eval_point({'kind': '2d', 'X': X, 'window': wname, 'NFFT': nf}, R)
+    elif kind == 'pcm':
+        N = desc[1]
+        for nm, x in A.pcm(N):
+            for wname in WINDOWS:
+                for nf in (None, N + 1, 2 * N):
+                    for form in ('func', 'class'):
+                        eval_point({'kind': '1d', 'form': form, 'x': x, 'window': wname, 'NFFT': nf, 'name': nm}, R)
+            for nf in (2 * N - 1, 2 * N):
+                for meth in ('xcorr', 'CORRELATION'):
+                    eval_point({'kind': 'wk', 'x': x, 'NFFT': nf, 'method': meth, 'name': nm}, R)
     elif kind == 'wk':
         _, aname, N = desc
         alpha, dt = _alpha(aname)
@@ -204,7 +216,7 @@ def eval_point(pt, R):
                 'PSD != |DFT(x*w)|^2/N', outs=(obs,), err=e)
         if cplx and obs.shape == ref.shape:
             lhs = float(np.mean(obs))
-            rhs = float(np.sum(np.abs(x * w) ** 2) / N)
+            rhs = float(np.sum(np.abs(A.prom(x) * w) ** 2) / N)
             R.check(abs(lhs - rhs) <= 1e-9 * max(abs(lhs), abs(rhs)) + atol, 'parseval', feats, pt, lhs, rhs,
                     'mean of the returned values != sum|x w|^2/N')
     elif kind == '2d':
@@ -252,7 +264,7 @@ def eval_point(pt, R):
             R.viol('wiener_khinchin', dict(feats, exc=type(e).__name__), pt, repr(e), ref, 'exception inside the domain')
             return
         scale = max(float(np.max(np.abs(ref))), 1e-300)
-        R.check(close(obs, ref, RTOL, 1e-12 * max(scale, float(np.sum(np.abs(x) ** 2)))), 'wiener_khinchin', feats, pt, obs, ref,
+        R.check(close(obs, ref, RTOL, 1e-12 * max(scale, float(np.sum(np.abs(A.prom(x)) ** 2)))), 'wiener_khinchin', feats, pt, obs, ref,
                 'correlogram(rect, lag N-1, biased) != periodogram', outs=(obs,), err=relerr(obs, ref, 1e-12))
     else:
         raise ValueError(kind)
